@@ -16,6 +16,8 @@
 (*   "promopin" pawn on the 7th pinned on a diagonal / file / rank         *)
 (*   "kingwalk" king next to one or two enemy sliders                      *)
 (*   "evade"    single check x interpose / capture by each kind            *)
+(*   "givechk"  every way a move gives check (direct, unmasking, through   *)
+(*              the pawn removed en passant, castling rook, promotion)     *)
 (* SHARD / NSHARDS split a family on its first enumeration variable.       *)
 (***************************************************************************)
 EXTENDS Chess, Json, Reporting
@@ -37,7 +39,9 @@ EmitOne(p, tag) ==
     LET lm == Legal(p)
     IN  PrintT("@@GEN " \o ToJson([fam |-> tag, b |-> [i \in 1..64 |-> p.board[i]], stm |-> p.stm,
                                    cr |-> Mask(p.castle), ep |-> p.ep, hmc |-> 0, pl |-> p.stm,
-                                   mvs |-> {PackMove(m) : m \in lm}, chk |-> InCheck(p)]))
+                                   mvs |-> {PackMove(m) : m \in lm}, chk |-> InCheck(p),
+                                   \* the moves after which the opponent is in check (the verdict the engine reaches by PLAYING the move)
+                                   gc |-> {PackMove(m) : m \in {x \in lm : InCheckB(BoardAfter(p.board, x, p.stm), Other(p.stm))}}]))
 
 \* Emits the position and its colour mirror if it is a legal position.
 Emit(pl, castle, ep, tag) ==
@@ -212,6 +216,48 @@ FamEvade ==
           \A bk \in {63, 0} :
             Emit(<< <<wk, W(King)>>, <<cs, Bl(ck)>>, <<ds, W(dk)>>, <<bk, Bl(King)>> >>, {}, -1, "evade")
 
+(***************************************************************************)
+(* givechk: moves that give check in every way a move can - directly, by   *)
+(* unmasking a slider behind the moving piece, by unmasking a slider       *)
+(* through the square of the pawn removed en passant, by the rook of a     *)
+(* castling move, by the piece a pawn promotes to.  The verdict after      *)
+(* PLAYING the move (field gc) is what the family is for.                  *)
+(***************************************************************************)
+SliderFor(d) == IF d \in OrthoDirs THEN {Rook, Queen} ELSE {Bishop, Queen}
+Opp(d) == ((d + 3) % 8) + 1
+
+FamGiveChk ==
+    \* (a) en passant: slider and enemy king on one line through the captured pawn's square
+    /\ \A f \in {x \in 0..7 : InShard(x)} : \A df \in {-1, 1} :
+         LET bf == f + df IN
+         IF bf \notin 0..7 THEN TRUE
+         ELSE LET wp == SqOf(f, 4)
+                  bp == SqOf(bf, 4)
+                  ep == SqOf(bf, 5)
+              IN  \A d \in AllDirs : \A i \in 1..Len(Ray(bp, d)) : \A j \in 1..Len(Ray(bp, Opp(d))) :
+                    \A sk \in SliderFor(d) : \A wk \in {0, 7, 58} :
+                      Emit(<< <<wk, W(King)>>, <<wp, W(Pawn)>>, <<bp, Bl(Pawn)>>, <<Ray(bp, d)[i], W(sk)>>,
+                              <<Ray(bp, Opp(d))[j], Bl(King)>> >>, {}, ep, "givechk-ep")
+    \* (b) castling: the enemy king anywhere (on the rook's file the castling move gives check)
+    /\ \A bk \in {s \in Sq : InShard(s)} : \A rights \in {{0}, {1}, {0, 1}} :
+         Emit(<< <<4, W(King)>>, <<0, W(Rook)>>, <<7, W(Rook)>>, <<bk, Bl(King)>> >>, rights, -1, "givechk-castle")
+    \* (c) promotion: pawn on the 7th, enemy king anywhere, optionally a piece to capture on the 8th
+    /\ \A bk \in {s \in Sq : InShard(s)} : \A f \in 0..7 : \A wk \in {0, 7} :
+         /\ Emit(<< <<wk, W(King)>>, <<SqOf(f, 6), W(Pawn)>>, <<bk, Bl(King)>> >>, {}, -1, "givechk-promo")
+         /\ (f < 7 /\ Keep(bk, f)) =>
+               Emit(<< <<wk, W(King)>>, <<SqOf(f, 6), W(Pawn)>>, <<SqOf(f + 1, 7), Bl(Knight)>>, <<bk, Bl(King)>> >>, {}, -1, "givechk-promo")
+    \* (d) unmasking: enemy king, a white piece of every kind, a white slider behind it on one line
+    /\ \A bk \in {s \in Sq : InShard(s)} : \A d \in AllDirs :
+         LET r == Ray(bk, d) IN
+         \A i \in 1..Len(r) : \A j \in (i + 1)..Len(r) :
+           IF ~Keep(i, j + bk) THEN TRUE
+           ELSE \A xk \in {Pawn, Knight, Bishop, Rook, King} : \A sk \in SliderFor(d) :
+                  IF xk = King
+                  THEN Emit(<< <<r[i], W(King)>>, <<r[j], W(sk)>>, <<bk, Bl(King)>> >>, {}, -1, "givechk-unmask")
+                  ELSE IF xk = Pawn /\ RankOf(r[i]) \in {0, 7} THEN TRUE
+                  ELSE \A wk \in {0, 63} :
+                         Emit(<< <<wk, W(King)>>, <<r[i], W(xk)>>, <<r[j], W(sk)>>, <<bk, Bl(King)>> >>, {}, -1, "givechk-unmask")
+
 Run ==
     CASE FAMILY = "ep" -> FamEp
       [] FAMILY = "castle" -> FamCastle
@@ -221,6 +267,7 @@ Run ==
       [] FAMILY = "promopin" -> FamPromoPin
       [] FAMILY = "kingwalk" -> FamKingWalk
       [] FAMILY = "evade" -> FamEvade
+      [] FAMILY = "givechk" -> FamGiveChk
 
 ASSUME Run
 
